@@ -15,7 +15,18 @@ MIXED = ("Mixed. Level P obligations (proved for all inputs by pyvc+z3 or decide
          "obligations/discharged. Level B is a BOUNDED enumeration of run-time-checked contracts and is never counted as proved. ")
 
 
+QUICK_CAP, QUICK_CAP_EXPLORE = 450, 260
+
+
 def run_b(rep, cells, props, explore=False, tier="quick"):
+    if tier == "quick":
+        cap = QUICK_CAP_EXPLORE if explore else QUICK_CAP
+        if len(cells) > cap:
+            # deterministic stride sample (rotated by the seed) - the thorough tier runs everything
+            step = len(cells) / cap
+            off = common.seed() % max(1, int(step))
+            cells = [cells[min(len(cells) - 1, int(off + i * step))] for i in range(cap)]
+            rep.bounds["quick_sampling"] = f"families larger than {cap} cells are stride-sampled in the quick tier (thorough runs all)"
     rep.bounds["cells"] = rep.bounds.get("cells", 0) + len(cells)
     if explore:
         res = RUN.explore_outcomes(None, cells, max_branch=(2 if tier == "quick" else 4), depth=(2 if tier == "quick" else 3))
